@@ -1,0 +1,42 @@
+//go:build verif
+
+// Package verifexport re-exports internal readers for the verification harness, which lives
+// in another module and cannot import v2/internal. It only exists under the "verif" tag.
+package verifexport
+
+import (
+	"io"
+
+	blocks "github.com/ipfs/go-block-format"
+	"github.com/ipfs/go-cid"
+	"github.com/ipld/go-car/v2/internal/carv1"
+	"github.com/ipld/go-car/v2/internal/carv1/util"
+)
+
+type V1Reader struct{ cr *carv1.CarReader }
+
+func NewV1Reader(r io.Reader, zeroLenAsEOF bool, maxHeader, maxSection uint64) (*V1Reader, []cid.Cid, error) {
+	cr, err := carv1.NewCarReaderWithoutDefaults(r, zeroLenAsEOF, maxHeader, maxSection)
+	if err != nil {
+		return nil, nil, err
+	}
+	return &V1Reader{cr}, cr.Header.Roots, nil
+}
+
+func (v *V1Reader) Next() (blocks.Block, error) { return v.cr.Next() }
+
+// LoadCar runs the internal CARv1 loader into s.
+func LoadCar(s carv1.Store, r io.Reader) ([]cid.Cid, error) {
+	h, err := carv1.LoadCar(s, r)
+	if err != nil {
+		return nil, err
+	}
+	return h.Roots, nil
+}
+
+func LdSize(d ...[]byte) uint64 { return util.LdSize(d...) }
+
+var (
+	ErrSectionTooLarge = util.ErrSectionTooLarge
+	ErrHeaderTooLarge  = util.ErrHeaderTooLarge
+)
